@@ -38,4 +38,20 @@ SPECS = {
             _fn("LevyTriplet.tilde_drift", "tilde_drift"),
         ],
     },
+    # the drift DISPATCH: LevyTriplet.set_representation + the _drift_mapping dict of LevyTriplet.__init__ + the enum values
+    # (harness/py2coq_c04.py); result = (new a, new representation); KeyError / ValueError = err
+    "GenC04SetRep": {
+        "file": "rpylib/model/levymodel/levymodel.py",
+        "dom": "Q",
+        "header": ("From Coq Require Import ZArith QArith Qminmax Qabs Bool List.\nFrom RV Require Import Base.QB Gen.GenC04Triplet.\n"
+                   "Open Scope Q_scope.\n"),
+        "section": [("m1", "Q -> Q -> Q"), ("pinf", "Q"), ("err", "Q")],
+        "funcs": [
+            {"py": "LevyTriplet.set_representation", "coq": "set_representation", "emitter": "py2coq_c04:emit_set_representation",
+             "param": "representation", "enum": _REP, "enum_values": {"ZERO": 1, "CENTER": 2, "ONEONE": 3, "TILDE": 4},
+             "mapping_attr": "self._drift_mapping", "on_raise": "err",
+             "methods": {"self.canonical_drift": "canonical_drift m1 pinf err", "self.zero_drift": "zero_drift m1 pinf err",
+                         "self.center_drift": "center_drift m1 pinf err", "self.tilde_drift": "tilde_drift m1 pinf err"}},
+        ],
+    },
 }
